@@ -1471,6 +1471,58 @@ fn corpus_cases() -> Vec<String> {
     out
 }
 
+/// Round-3 corpus (`disc corpus3` -> corpus/C08/round3.txt): CpG-like pair matrices (seeded/C08/1 and /5), tiny ranges
+/// and subnormal factors (seeded/C08/6), one huge cell, and histories on one reused score buffer.
+fn corpus3_cases() -> Vec<String> {
+    let mut rng = Rng::new(9);
+    let mut out = vec![];
+    let ninf = f32::NEG_INFINITY;
+    let h_all = "G.0.0.F;G.1.2.F;Z.255;G.0.1.F;G.0.0.F|A.0.2.F;Z.255;A.0.4.F;A.2.1.F;A.0.0.F|a.3.2.F;g.0.1.0:1;R.7.5;Z.255;s.0.4.F;a.0.0.F|S.0.2.F;A.0.0.0:1;G.0.3.F;a.0.0.F";
+    // two rows, both with range 4: cells 128 + 128 = 256 on the consensus word "CG"
+    let cpg2 = vec![[-2.0f32, 2.0, -2.0, -2.0, ninf], [-2.0, -2.0, -2.0, 2.0, ninf]];
+    out.push(format!("{} hist={}", case_line(&mut rng, "cpg-2rows", "cpg", &cpg2, "ATGTCCCCGAACGATACCCCGAGCCCATCGCGCGNAACGCGAGCCCAT"), h_all));
+    // the pair on an even index inside a wider motif whose other rows are constant
+    let c = [0.25f32, 0.25, 0.25, 0.25, ninf];
+    let cpg6 = vec![c, c, cpg2[0], cpg2[1], c, c];
+    out.push(format!("{} hist={}", case_line(&mut rng, "cpg-even-pair", "cpg", &cpg6, "AACGTTAACGTTTTCGAAACGNACGTACGCGCGTTAACGAA"), h_all));
+    // ... on an odd index, other rows almost flat (range below 1/255 of the total)
+    let w = [0.25f32, 0.2501, 0.25, 0.2502, ninf];
+    let cpg5 = vec![w, cpg2[0], cpg2[1], w, w];
+    out.push(format!("{} hist={}", case_line(&mut rng, "cpg-odd-pair", "cpg", &cpg5, "ACGTTACGTTTCGAAACGNACGTACGCGCGTTACGAAACGAT"), h_all));
+    // three rows 86 + 85 + 85: sums of two stay below 256, of three reach 256
+    let t3 = vec![[-1.0f32, 1.01, -1.0, -1.0, ninf], [-1.0, -1.0, -1.0, 1.0, ninf], [1.0, -1.0, -1.0, -1.0, ninf]];
+    out.push(format!("{} hist={}", case_line(&mut rng, "three-rows", "cpg", &t3, "CGACGACGAACGATTCGACGANCGACGA"), h_all));
+    // tiny ranges: the README-like matrix scaled by 2^-20 (range below 255 * f32::EPSILON), 2^-40, 2^-120 and 2^-130
+    // (SUBNORMAL factor), 2^-146 (range of a few subnormal steps: factor rounds to 0 or to the smallest subnormal)
+    let base = vec![[-3.5f32, 1.25, -0.75, -2.0, ninf], [1.5, -2.25, -1.0, 0.5, ninf], [-1.0, -0.5, 1.75, -3.0, ninf], [0.25, 0.75, -2.5, 1.0, ninf]];
+    for e in [20i32, 40, 120, 130, 146] {
+        let sc = 2f64.powi(-e);
+        let rows: Vec<[f32; 5]> = base.iter().map(|r| {
+            let mut q = [0f32; 5];
+            for j in 0..4 { q[j] = (r[j] as f64 * sc) as f32; }
+            q[4] = ninf;
+            q
+        }).collect();
+        out.push(format!("{} hist={}", case_line(&mut rng, &format!("tiny-2^-{}", e), "tiny", &rows, "CATGCATCCATGAACATGNCATGTTTCATG"), h_all));
+    }
+    // cells a few ulps apart around 1.0 (range 3 * f32::EPSILON: ill conditioned)
+    let u = |k: u32| f32::from_bits(1.0f32.to_bits() + k);
+    let ulps = vec![[u(0), u(1), u(2), u(3), ninf], [u(3), u(0), u(1), u(0), ninf], [u(1), u(1), u(0), u(2), ninf]];
+    out.push(case_line(&mut rng, "tiny-ulps", "tiny", &ulps, "GAAGCAACGTGAAGAATTTGAC"));
+    // one huge cell
+    for (name, v) in [("huge-1e30", 1.0e30f32), ("huge-3e38", 3.0e38), ("huge-neg-1e38", -1.0e38)] {
+        let mut rows = base.clone();
+        rows[1][2] = v;
+        out.push(format!("{} hist={}", case_line(&mut rng, name, "hugecell", &rows, "CATGCTTCCATGAACTTGNCATGTTTCATG"), h_all));
+    }
+    // constant rows mixed with one informative row; all rows constant but different
+    let c1 = vec![[1.0f32, 1.0, 1.0, 1.0, ninf], [-2.0, 3.0, 0.5, 0.0, ninf], [0.5, 0.5, 0.5, 0.5, 0.5]];
+    out.push(format!("{} hist={}", case_line(&mut rng, "constant-rows-mixed", "ties", &c1, "ACGTNACGTCCCCACGT"), h_all));
+    let c2 = vec![[1.0f32, 1.0, 1.0, 1.0, ninf], [-2.0, -2.0, -2.0, -2.0, 7.0], [0.5, 0.5, 0.5, 0.5, 0.25]];
+    out.push(format!("{} hist={}", case_line(&mut rng, "constant-rows-all", "constant", &c2, "ACGTNACGTCCCCACGTNNNA"), h_all));
+    out
+}
+
 fn main() {
     let args = parse_args();
     match args.cmd.as_str() {
@@ -1484,6 +1536,12 @@ fn main() {
         "corpus" => {
             silence_panics();
             for l in corpus_cases() {
+                println!("{}", l);
+            }
+        }
+        "corpus3" => {
+            silence_panics();
+            for l in corpus3_cases() {
                 println!("{}", l);
             }
         }
